@@ -438,6 +438,19 @@ def make_globals(w):
     return g
 
 
+class _ModNS:
+    """Attribute view of a library module's global dict (live: later writes to globals are seen)."""
+
+    def __init__(self, g):
+        object.__setattr__(self, "_g", g)
+
+    def __getattr__(self, n):
+        try:
+            return object.__getattribute__(self, "_g")[n]
+        except KeyError:
+            raise AttributeError(n)
+
+
 def run_ref(code, env, K=8, T=2, modules=None, tick_cap=3000):
     """Execute compiled reference code.  modules: {name: code} are executed first
     into namespace objects bound to their names (library modules)."""
@@ -454,8 +467,7 @@ def run_ref(code, env, K=8, T=2, modules=None, tick_cap=3000):
                 for other, ns in list(g.get("__mods", {}).items()):
                     mg[other] = ns
                 exec(mcode, mg)
-                ns = _t.SimpleNamespace()
-                ns.__dict__ = mg
+                ns = _ModNS(mg)
                 g.setdefault("__mods", {})[bind] = ns
                 g[bind] = ns
         exec(code, g)
